@@ -1,5 +1,6 @@
 import CohdlVerif.Lemmas.C13Hist
 import CohdlVerif.Lemmas.C13Views
+import CohdlVerif.Lemmas.C13Session
 import Mathlib.Tactic.Tauto
 /-!
   C13 - property theorems.  Part A: for EVERY history of requests (any order, repeated, interleaved, rejected
@@ -207,3 +208,26 @@ theorem C13.iter_refspec_fails_at :
     ∃ v e, applyOps (rootView 0 .signal .bv 2) [.slice 1 1, .slice 0 0] = some v ∧ iterCurrent v 0 = some e ∧
       e.cells = [1] ∧ resolve 2 e = [0] := by
   refine ⟨_, _, rfl, rfl, ?_, ?_⟩ <;> decide
+
+/-- SESSIONS.  Views may be created at any time (from the root or from any live view) and writes of any kind
+    (explicit bits, bit-serial or snapshot copies from another live view, rejected writes) may go through the root
+    or any live view, in any interleaving: after every such history the storage still has the root's width and
+    EVERY live view - created before or after any of the writes - is a well-formed view of the same root (same root
+    id and qualifier, distinct cells inside the root, printed name = its cells), and what it shows is, cell by cell,
+    the current content of the root (`Sess.shown` reads the one storage: there is no second copy that could go stale). -/
+theorem C13.session_views_stay_aliases (vt : VT) (bits : List Bool) (hvt : vt ≠ .bit) (steps : List Step) (v : View)
+    (hm : some v ∈ (runSess (Sess.init vt bits) steps).views) :
+    (runSess (Sess.init vt bits) steps).store.length = bits.length ∧
+    v.root = 0 ∧ v.qual = .signal ∧ v.cells.Nodup ∧ (∀ c ∈ v.cells, c < bits.length) ∧
+    resolve bits.length v = v.cells ∧
+    some (v.cells.map ((runSess (Sess.init vt bits) steps).store.getD · false)) ∈ (runSess (Sess.init vt bits) steps).shown := by
+  obtain ⟨hl, hv⟩ := runSess_ok bits.length steps _ (init_ok vt bits hvt)
+  obtain ⟨hok, hr, hq⟩ := hv v hm
+  obtain ⟨hnd, hlt⟩ := cells_of_ok _ v hok
+  refine ⟨hl, hr, hq, hnd, hlt, resolve_of_ok _ v hok, ?_⟩
+  simp only [Sess.shown, List.mem_map]
+  exact ⟨some v, hm, rfl⟩
+
+example : (runSess (Sess.init .bv [true, true, true, true]) [.view 0 (.slice 2 1), .wr 0 [false, false, false, false],
+    .view 0 (.index 2), .wr 1 [true, false], .copySeq 0 0]).shown =
+    [some [false, true, false, false], some [true, false], some [false]] := by decide
